@@ -9,8 +9,8 @@ use crate::endpoints::*;
 use crate::engine::*;
 use crate::refcbor::{self, Item, Kind};
 use crate::rng::Rng;
-use crate::traffic::*;
 use crate::trace::*;
+use crate::traffic::*;
 use crate::util::{hash_bytes, hex_short, Hasher64};
 use coset::CoseError;
 
@@ -18,8 +18,8 @@ pub struct C13;
 
 /// Single-byte suffix palette (24 values): every major type's first byte, break, simple values.
 const SUFFIX_BYTES: &[u8] = &[
-    0x00, 0x01, 0x17, 0x18, 0x20, 0x37, 0x40, 0x41, 0x5f, 0x60, 0x61, 0x7f, 0x80, 0x81, 0x9f, 0xa0, 0xa1, 0xbf, 0xc0, 0xd2, 0xf4,
-    0xf6, 0xff, 0xfe,
+    0x00, 0x01, 0x17, 0x18, 0x20, 0x37, 0x40, 0x41, 0x5f, 0x60, 0x61, 0x7f, 0x80, 0x81, 0x9f, 0xa0,
+    0xa1, 0xbf, 0xc0, 0xd2, 0xf4, 0xf6, 0xff, 0xfe,
 ];
 
 fn max_len(tier: Tier) -> usize {
@@ -103,7 +103,9 @@ pub fn protected_slots(root: &Item, ty: &str) -> Vec<Vec<usize>> {
     let mut path = Vec::new();
     match ty {
         "Header" | "ProtectedHeader" => header(root, &mut path, &mut out),
-        "CoseSignature" | "CoseSign1" | "CoseMac0" | "CoseEncrypt0" => structure(root, &mut path, &mut out, Nested::None),
+        "CoseSignature" | "CoseSign1" | "CoseMac0" | "CoseEncrypt0" => {
+            structure(root, &mut path, &mut out, Nested::None)
+        }
         "CoseSign" => {
             // signatures: [protected, unprotected, signature] - a 3-element structure is never
             // taken for a recipient with nested recipients
@@ -144,14 +146,34 @@ enum Fault {
 impl Fault {
     fn step(&self, ep: &str) -> Step {
         match self {
-            Fault::Cut(k) => Step::new("fault", "cut", vec![Arg::S(ep.replace(' ', "_")), Arg::I(*k as i128)]),
-            Fault::Append(s, _) => Step::new("fault", "append", vec![Arg::S(ep.replace(' ', "_")), Arg::B(s.clone())]),
-            Fault::InnerCut(slot, k) => {
-                Step::new("fault", "inner-cut", vec![Arg::S(ep.replace(' ', "_")), Arg::I(*slot as i128), Arg::I(*k as i128)])
-            }
-            Fault::InnerAppend(slot, s) => {
-                Step::new("fault", "inner-append", vec![Arg::S(ep.replace(' ', "_")), Arg::I(*slot as i128), Arg::B(s.clone())])
-            }
+            Fault::Cut(k) => Step::new(
+                "fault",
+                "cut",
+                vec![Arg::S(ep.replace(' ', "_")), Arg::I(*k as i128)],
+            ),
+            Fault::Append(s, _) => Step::new(
+                "fault",
+                "append",
+                vec![Arg::S(ep.replace(' ', "_")), Arg::B(s.clone())],
+            ),
+            Fault::InnerCut(slot, k) => Step::new(
+                "fault",
+                "inner-cut",
+                vec![
+                    Arg::S(ep.replace(' ', "_")),
+                    Arg::I(*slot as i128),
+                    Arg::I(*k as i128),
+                ],
+            ),
+            Fault::InnerAppend(slot, s) => Step::new(
+                "fault",
+                "inner-append",
+                vec![
+                    Arg::S(ep.replace(' ', "_")),
+                    Arg::I(*slot as i128),
+                    Arg::B(s.clone()),
+                ],
+            ),
         }
     }
     fn kind(&self) -> &'static str {
@@ -164,7 +186,10 @@ impl Fault {
     }
 }
 
-fn decode_guarded(f: fn(&[u8]) -> Result<Decoded, CoseError>, b: &[u8]) -> Result<Result<Decoded, CoseError>, String> {
+fn decode_guarded(
+    f: fn(&[u8]) -> Result<Decoded, CoseError>,
+    b: &[u8],
+) -> Result<Result<Decoded, CoseError>, String> {
     guarded(|| f(b))
 }
 
@@ -194,7 +219,10 @@ impl<'a> Ctx<'a> {
         let a = match decode_guarded(ep.decode, bytes) {
             Ok(r) => r,
             Err(p) => {
-                let v = Violation::new("C13.panic", format!("{} panicked on {}: {}", ep.name, hex_short(bytes), p));
+                let v = Violation::new(
+                    "C13.panic",
+                    format!("{} panicked on {}: {}", ep.name, hex_short(bytes), p),
+                );
                 return Err(match fault {
                     Some(f) => v.narrowed(self.narrowed(f, ep.name)),
                     None => v,
@@ -204,7 +232,15 @@ impl<'a> Ctx<'a> {
         let b = match decode_guarded(ep.decode_via_value, bytes) {
             Ok(r) => r,
             Err(p) => {
-                return Err(Violation::new("C13.panic", format!("{} (Value route) panicked on {}: {}", ep.name, hex_short(bytes), p)))
+                return Err(Violation::new(
+                    "C13.panic",
+                    format!(
+                        "{} (Value route) panicked on {}: {}",
+                        ep.name,
+                        hex_short(bytes),
+                        p
+                    ),
+                ))
             }
         };
         let agree = match (&a, &b) {
@@ -270,7 +306,11 @@ fn outcome_str(r: &Result<Decoded, CoseError>) -> String {
 /// Rebuild the message with the content of the protected slot at `path` replaced.
 fn with_slot(root: &Item, path: &[usize], content: Vec<u8>, tagged_wrapper: bool) -> Vec<u8> {
     let mut r = root.clone();
-    let full: Vec<usize> = if tagged_wrapper { std::iter::once(0).chain(path.iter().copied()).collect() } else { path.to_vec() };
+    let full: Vec<usize> = if tagged_wrapper {
+        std::iter::once(0).chain(path.iter().copied()).collect()
+    } else {
+        path.to_vec()
+    };
     if let Some(it) = refcbor::get_mut(&mut r, &full) {
         it.kind = Kind::Bytes(content);
     }
@@ -313,7 +353,10 @@ impl Engine for C13 {
         let ty = MESSAGE_TYPES[rng.below(MESSAGE_TYPES.len())];
         let tagged = TAGGABLE.contains(&ty) && rng.bool();
         let cfg = if rng.chance(1, 16) {
-            GenCfg { big: max_len(tier) / 2, big_chance: 4 }
+            GenCfg {
+                big: max_len(tier) / 2,
+                big_chance: 4,
+            }
         } else if rng.chance(1, 4) {
             GenCfg::medium()
         } else {
@@ -329,9 +372,26 @@ impl Engine for C13 {
         // 1 message in 300 is large (byte strings of ~70 kB, message beyond 64 KiB); its cut points
         // are sampled (both ends, evenly spaced, around 2^16) instead of enumerated
         if rng.chance(1, 300) {
-            let bigty = ["CoseSign1", "CoseMac0", "CoseEncrypt0", "CoseSign", "Header", "CoseKey", "CoseKdfContext", "ClaimsSet"][rng.below(8)];
+            let bigty = [
+                "CoseSign1",
+                "CoseMac0",
+                "CoseEncrypt0",
+                "CoseSign",
+                "Header",
+                "CoseKey",
+                "CoseKdfContext",
+                "ClaimsSet",
+            ][rng.below(8)];
             let t2 = TAGGABLE.contains(&bigty) && rng.bool();
-            let m = gen_wire(&mut rng, bigty, t2, &GenCfg { big: 70_000, big_chance: 24 });
+            let m = gen_wire(
+                &mut rng,
+                bigty,
+                t2,
+                &GenCfg {
+                    big: 70_000,
+                    big_chance: 24,
+                },
+            );
             if m.len() > 65_536 {
                 msg = m;
                 t.set_meta("type", bigty);
@@ -342,7 +402,16 @@ impl Engine for C13 {
         // 1 message in 40 carries, in its unprotected header, a value nested right at the CBOR
         // parser's depth limit (entry points must agree there too)
         if t.meta("size").is_none() && rng.chance(1, 40) {
-            let mty = ["CoseSign1", "CoseMac0", "CoseEncrypt0", "CoseSign", "CoseMac", "CoseEncrypt", "CoseSignature", "CoseRecipient"][rng.below(8)];
+            let mty = [
+                "CoseSign1",
+                "CoseMac0",
+                "CoseEncrypt0",
+                "CoseSign",
+                "CoseMac",
+                "CoseEncrypt",
+                "CoseSignature",
+                "CoseRecipient",
+            ][rng.below(8)];
             let mtag = TAGGABLE.contains(&mty) && rng.bool();
             let it = gen_item(&mut rng, mty, &GenCfg::small());
             let mut a = it.as_array().cloned().unwrap_or_default();
@@ -382,7 +451,15 @@ impl Engine for C13 {
                 let mut out = Vec::new();
                 let widen = rng.range(0, 6) as u32;
                 let indef = rng.range(1, 8) as u32;
-                refcbor::write_item(&item, &mut out, &mut refcbor::Seeded { rng: &mut rng, widen, indef });
+                refcbor::write_item(
+                    &item,
+                    &mut out,
+                    &mut refcbor::Seeded {
+                        rng: &mut rng,
+                        widen,
+                        indef,
+                    },
+                );
                 if out.len() <= max_len(tier) && out != msg {
                     msg = out;
                     t.set_meta("encoding", "non-canonical");
@@ -409,11 +486,21 @@ impl Engine for C13 {
         let ty = t.meta_req("type")?.to_string();
         let tagged = t.meta_req("form")? == "tagged";
         let find = |n: &str| t.steps.iter().find(|s| s.kind == "msg" && s.name == n);
-        let msg = find("message").ok_or_else(|| HarnessError("no message step".into()))?.bytes(0)?.to_vec();
-        let next = find("next").map(|s| s.bytes(0).map(|b| b.to_vec())).transpose()?.unwrap_or_default();
-        let garbage = find("garbage").map(|s| s.bytes(0).map(|b| b.to_vec())).transpose()?.unwrap_or_default();
+        let msg = find("message")
+            .ok_or_else(|| HarnessError("no message step".into()))?
+            .bytes(0)?
+            .to_vec();
+        let next = find("next")
+            .map(|s| s.bytes(0).map(|b| b.to_vec()))
+            .transpose()?
+            .unwrap_or_default();
+        let garbage = find("garbage")
+            .map(|s| s.bytes(0).map(|b| b.to_vec()))
+            .transpose()?
+            .unwrap_or_default();
         let only: Vec<&Step> = t.steps.iter().filter(|s| s.kind == "fault").collect();
-        let root = refcbor::read_exact(&msg).map_err(|e| HarnessError(format!("generated message is not CBOR: {:?}", e)))?;
+        let root = refcbor::read_exact(&msg)
+            .map_err(|e| HarnessError(format!("generated message is not CBOR: {:?}", e)))?;
         let body = if tagged {
             match &root.kind {
                 Kind::Tag(_, inner) => (**inner).clone(),
@@ -454,7 +541,9 @@ impl Engine for C13 {
         if msg.len() >= 2 {
             cx.st.distinct(0, hash_bytes(&msg));
         }
-        let own_accepts = accepting.iter().any(|(ep, _)| ep.ty == ty && ep.form != Form::Bstr);
+        let own_accepts = accepting
+            .iter()
+            .any(|(ep, _)| ep.ty == ty && ep.form != Form::Bstr);
         if !own_accepts {
             // the sender's own decoder refusing valid traffic is not a C13 matter; counted so that a
             // generator fault cannot hide (must stay 0 on the unchanged tree)
@@ -507,7 +596,9 @@ impl Engine for C13 {
                     )))
                 }
             }
-            if let (Some(tag), Some(tv)) = (reg_tag(ep.ty), guarded(|| d.to_tagged_vec()).ok().flatten()) {
+            if let (Some(tag), Some(tv)) =
+                (reg_tag(ep.ty), guarded(|| d.to_tagged_vec()).ok().flatten())
+            {
                 let via = guarded(|| d.tagged_via_value(tag));
                 cx.st.inc("evaluations");
                 match (tv, via) {
@@ -530,7 +621,10 @@ impl Engine for C13 {
         }
         // suffixes that push the total length beyond 2^16 (size-dependent code paths)
         faults.push(Fault::Append(vec![0u8; 65_537], "append(64KiB+ zeros)"));
-        faults.push(Fault::Append(crate::palette::pat(70_000, 0x5a), "append(64KiB+ garbage)"));
+        faults.push(Fault::Append(
+            crate::palette::pat(70_000, 0x5a),
+            "append(64KiB+ garbage)",
+        ));
         if crate::util::hash_bytes(&msg) % 4 == 0 {
             // a quarter of the messages get every one of the 256 single-byte suffixes
             for b in 0..=255u8 {
@@ -602,7 +696,11 @@ impl Engine for C13 {
             let epn = ep.name.replace(' ', "_");
             let list: Vec<Fault> = match &restrict {
                 None => faults.clone(),
-                Some(r) => r.iter().filter(|(e, _)| *e == epn).map(|(_, f)| f.clone()).collect(),
+                Some(r) => r
+                    .iter()
+                    .filter(|(e, _)| *e == epn)
+                    .map(|(_, f)| f.clone())
+                    .collect(),
             };
             for f in &list {
                 let (bytes, must): (Vec<u8>, &str) = match f {
@@ -639,7 +737,10 @@ impl Engine for C13 {
                         if *k == 0 || *k >= content.len() {
                             continue;
                         }
-                        (with_slot(&root, path, content[..*k].to_vec(), tagged), "reject")
+                        (
+                            with_slot(&root, path, content[..*k].to_vec(), tagged),
+                            "reject",
+                        )
                     }
                     Fault::InnerAppend(si, s) => {
                         if !inner_eligible(ep, &ty) {
